@@ -42,7 +42,7 @@ theorem ruleAt_quote (cfg : LexCfg) {q : Char} (hq : q = '\'' ∨ q = '"' ∨ q 
   have hd : cfg.chars.isDigit q = false := nonword_not_digit _ hw
   have h1 : q ≠ '$' := by rcases hq with h | h | h <;> subst h <;> decide
   have h2 : matchNumber cfg.chars pw (q :: r) = none := by
-    simp [matchNumber, List.takeWhile_cons, hd]
+    simp [matchNumber, fracPart, List.takeWhile_cons, hd]
   have h3 : matchFunc cfg.chars pw (q :: r) = none := by
     simp [matchFunc, identStart, hw]
   have h4 : matchKeyword cfg.chars pw (q :: r) = none := by
@@ -728,7 +728,7 @@ theorem matchNumber_int (cc : CharCfg) {ds : List Char} (hne : ds ≠ []) (hd : 
   have h3 : ds.isEmpty = false := by cases ds with
     | nil => exact absurd rfl hne
     | cons _ _ => rfl
-  simp [matchNumber, h1, h2, h3, boundaryAfter]
+  simp [matchNumber, fracPart, h1, h2, h3, boundaryAfter]
 
 theorem matchNumber_dec (cc : CharCfg) {a b : List Char} (hne : a ≠ []) (ha : AllDigits cc a)
     (hnb : b ≠ []) (hb : AllDigits cc b) :
@@ -743,7 +743,7 @@ theorem matchNumber_dec (cc : CharCfg) {a b : List Char} (hne : a ≠ []) (ha : 
   have h6 : b.isEmpty = false := by cases b with
     | nil => exact absurd rfl hnb
     | cons _ _ => rfl
-  simp [matchNumber, h1, h2, h3, h4, h5, h6, boundaryAfter]
+  simp [matchNumber, fracPart, h1, h2, h3, h4, h5, h6, boundaryAfter]
 
 theorem ruleAt_digit (cfg : LexCfg) {d : Char} {r : List Char} (hd : cfg.chars.isDigit d = true) (pos : Nat)
     {m : NumMatch} (hm : matchNumber cfg.chars false (d :: r) = some m) :
@@ -898,7 +898,7 @@ theorem ident_prelude (cfg : LexCfg) {c : Char} {r : List Char} (h : IdentShaped
     identStart cfg.chars c = true := by
   obtain ⟨hw, hd, _⟩ := h
   refine ⟨word_ne_of_nonword cfg.chars hw (by decide), word_not_ignored cfg.chars hw, ?_, ?_⟩
-  · simp [matchNumber, List.takeWhile_cons, hd]
+  · simp [matchNumber, fracPart, List.takeWhile_cons, hd]
   · simp [identStart, hw, hd]
 
 theorem ruleAt_word (cfg : LexCfg) {c : Char} {r : List Char} (h : IdentShaped cfg.chars c r)
@@ -992,5 +992,51 @@ theorem func_before_keyword (cfg : LexCfg) {c : Char} {r : List Char} (h : Ident
 example (cfg : LexCfg) : IdentShaped cfg.chars '_' ['_'] :=
   ⟨cfg.chars.underscore_word, cfg.chars.underscore_nondigit, by
     intro x hx; simp at hx; subst hx; exact cfg.chars.underscore_word⟩
+
+/-! ## a concrete configuration (ASCII classes, the default operator table): the hypotheses above are
+satisfiable, and the model computes what the real lexer does on a few texts (checked by the kernel) -/
+
+def asciiChars : CharCfg :=
+  { isWord := fun c => c.isAlphanum || c == '_',
+    isDigit := fun c => c.isDigit,
+    digitVal := fun c => (c.toNat - 48) % 10,
+    digit_word := by intro c h; simp [Char.isAlphanum, h],
+    digit_lt := by intro c _; exact Nat.mod_lt _ (by decide),
+    underscore_word := by decide,
+    underscore_nondigit := by decide,
+    nonword := by
+      intro c h
+      simp only [nonWordChars, List.mem_cons, List.not_mem_nil, or_false] at h
+      rcases h with h | h | h | h | h | h | h | h | h | h | h | h | h | h | h | h | h <;> subst h <;> decide }
+
+def defaultOps : List (List Char) :=
+  [['.'], ['?', '.'], ['+'], ['-'], ['=', '~'], ['!', '~'], ['*'], ['/'], ['m', 'o', 'd'], ['>'], ['<'], ['>', '='],
+   ['<', '='], ['!', '='], ['='], ['i', 'n'], ['n', 'o', 't'], ['a', 'n', 'd'], ['o', 'r'], ['-', '>']]
+
+def asciiCfg : LexCfg :=
+  LexCfg.ofTable asciiChars defaultOps true true (some ['=', '>']) (fun _ => none) 4300
+
+example : NoQuotedRule asciiCfg := noQuotedRule_ofTable _ _ _ _ _ _ _
+
+-- `'a\'b'` spells a'b ; `"\\"` spells one backslash; `` `\`` `` is not a token
+example : lexAll asciiCfg ['\'', 'a', '\\', '\'', 'b', '\''] = .ok [strTok ['a', '\'', 'b']] := by decide +kernel
+example : lexAll asciiCfg ['`', '\\', '`'] = .error (.lexical ['`'] 0) := by decide +kernel
+-- `1.50 mod x` ; `a->b` (the longer operator first) ; `and(`
+example : lexAll asciiCfg ['1', '.', '5', '0', ' ', 'm', 'o', 'd', ' ', 'x'] =
+    .ok [⟨.number, .flt ['1', '.', '5', '0'], 0⟩, ⟨.op ['m', 'o', 'd'], .text ['m', 'o', 'd'], 5⟩,
+         ⟨.keyword, .text ['x'], 9⟩] := by decide +kernel
+example : lexAll asciiCfg ['a', '-', '>', 'b'] =
+    .ok [⟨.keyword, .text ['a'], 0⟩, ⟨.op ['-', '>'], .text ['-', '>'], 1⟩, ⟨.keyword, .text ['b'], 3⟩] := by
+  decide +kernel
+example : IdentShaped asciiCfg.chars 'a' ['n', 'd'] := by
+  refine ⟨by decide, by decide, ?_⟩
+  intro x hx; simp at hx; rcases hx with rfl | rfl <;> decide
+example : nextTok asciiCfg ['a', 'n', 'd', '(', ')'] 0 = .tok ⟨.func, .text ['a', 'n', 'd'], 0⟩ 4 := by decide +kernel
+-- `__x` ; `'\xzz'` (an ill-formed escape is reported with its text at its position)
+example : lexAll asciiCfg ['_', '_', 'x'] = .error (.lexical ['_'] 0) := by decide +kernel
+example : lexAll asciiCfg [' ', '\'', 'a', '\\', 'x', 'z', 'z', '\''] = .error (.lexical ['\\', 'x', 'z', 'z'] 3) := by
+  decide +kernel
+example : AllDigits asciiCfg.chars ['0', '4', '2'] := by
+  intro d hd; simp at hd; rcases hd with rfl | rfl | rfl <;> decide
 
 end Yaql.Props.C16
